@@ -382,6 +382,8 @@ def programs(tier):
                 out.append((spec, [c]))
         if tier == "thorough" or sname in ("S2", "S6"):
             spec = {"kind": "dataclass", "name": "Model", "fields": fields}
+            if not spec_valid(spec):
+                continue
             for pair in stacked_configs(n):
                 out.append((spec, pair))
     if tier == "thorough":
